@@ -90,7 +90,7 @@ def universes(basis):
     vals = [
         [{"paid": 1, "prem": 10}, {"paid": 2, "rep": None}, {"paid": 3, "rep": 7}, {"rep": 4.5, "paid": 9}, {"prem": 5}],
         [{"prem": 11, "paid": None, "extra": 1.5, "only_r": None}, {"rep": 20, "paid": None}, {"paid": 30, "rep": None},
-         {"paid": 9, "rep": 40.0}, {"prem": None, "paid": 50}],
+         {"paid": 0, "rep": 0.0}, {"prem": None, "paid": 50}],
         [{"paid": None}, {"paid": 2000, "prem": 7}, {"z": 0, "paid": None}, {}, {"prem": 6.25}],
     ]
     out = []
@@ -603,6 +603,143 @@ def oracle_select_merge(t, res):
     return []
 
 
+def canon_result(res):
+    if isinstance(res, BaseException):
+        return ("raised", type(res).__name__)
+    if hasattr(res, "cells"):
+        return ("tri", tuple(jc.canon_seq(res.cells)))
+    f = lambda c: None if c is None else ct.canon_cell(c, ordered=True)      # noqa: E731
+    return ("pairs", tuple(sorted(((f(a), f(b_)) for a, b_ in res), key=repr)))
+
+
+def hardening(ctx, run: Runner):
+    """small directed operand pairs on every run (notes/HARDENING.md families B, D, E, F, G, H, I, J, K, L)"""
+    import numpy as np
+    import pandas as pd
+
+    bm = jc.bermuda()
+    cs = run.cases
+    cs.hold = False
+    cs.shared = []
+    cs._new()
+    P1, P2, PY = (D(2021, 1, 1), D(2021, 3, 31)), (D(2021, 10, 1), D(2021, 12, 31)), (D(2021, 1, 1), D(2021, 12, 31))
+    E1, E2 = D(2021, 12, 31), D(2022, 3, 31)
+
+    def tri(specs, dt=None):
+        """specs: (metadata, period, evaluation date, values)"""
+        cells = []
+        for m, (s0, e0), ev, v in specs:
+            if dt:
+                s0, e0, ev = dt(s0), dt(e0), dt(ev)
+            cells.append(bm.CumulativeCell(period_start=s0, period_end=e0, evaluation_date=ev, values=dict(v), metadata=m))
+        return jc.mk_triangle(cells)
+
+    M = bm.Metadata
+    m0 = M(country="US", details={"lob": "auto"})
+    T = {}
+    # E: falsy values on the right override / arrive as right-only fields
+    T["vals"] = tri([(m0, P1, E1, {"paid": 5, "rep": 7.5, "x": 1}), (m0, P2, E1, {"paid": 6})])
+    T["falsy"] = tri([(m0, P1, E1, {"paid": 0, "rep": 0.0, "x": None, "only_r": 0}), (m0, P2, E2, {"paid": 0.0})])
+    # B: None vs "" vs missing; limit 0 vs None; only loss_details differ
+    T["c_none"] = tri([(M(country=None), P1, E1, {"paid": 1})])
+    T["c_empty"] = tri([(M(country=""), P1, E1, {"paid": 2})])
+    T["lim0"] = tri([(M(country="", per_occurrence_limit=0), P1, E1, {"paid": 3})])
+    T["lim0f"] = tri([(M(country="", per_occurrence_limit=0.0), P1, E1, {"rep": 4})])
+    T["ld_x"] = tri([(M(country="US", loss_details={"cov": "x"}), P1, E1, {"paid": 5}),
+                     (M(country="US", loss_details={"cov": "y"}), P1, E1, {"paid": 6})])
+    T["ld_y"] = tri([(M(country="DE", loss_details={"cov": "y"}), P1, E1, {"rep": 7}),
+                     (M(country="US", loss_details={"cov": "y", "peril": "w"}), P1, E1, {"rep": 8})])
+    # I: restated cells (same coordinates, other values) inside an operand
+    T["restated_l"] = tri([(m0, P1, E1, {"paid": 1}), (m0, P1, E1, {"paid": 2, "rep": 3}), (m0, P2, E1, {"paid": 4})])
+    T["restated_r"] = tri([(m0, P1, E1, {"paid": 10}), (m0, P1, E1, {"rep": 30, "paid": None})])
+    # J: nested periods sharing a start / an end inside one slice
+    T["nested_l"] = tri([(m0, P1, E1, {"paid": 1}), (m0, PY, E1, {"paid": 2}), (m0, P2, E1, {"paid": 3}), (m0, PY, E2, {"paid": 4})])
+    T["nested_r"] = tri([(m0, PY, E2, {"prem": 100}), (m0, P1, D(2021, 6, 30), {"prem": 25}), (m0, P1, E2, {"prem": 26})])
+    T["nested_r1"] = tri([(m0, PY, E2, {"prem": 100}), (m0, P2, E2, {"prem": 26})])
+    # G: NumPy corner types (values must be carried unchanged)
+    a6 = np.arange(6, dtype=np.int64)
+    T["np_l"] = tri([(m0, P1, E1, {"big": np.int64(2 ** 53 + 1), "a32": np.array([1.5, 2.5], dtype=np.float32), "s1": np.array([5])}),
+                     (m0, P2, E1, {"f64": np.float64(0.5)})])
+    T["np_r"] = tri([(m0, P1, E1, {"big": np.int64(2 ** 53 + 3), "i32": np.array([1, 2], dtype=np.int32), "strided": a6[::2]}),
+                     (m0, P2, E2, {"s1": np.array([7.0])})])
+    T["np_py"] = tri([(m0, P1, E1, {"flag": True, "z0": np.array(5), "bools": np.array([True, False])})])
+    # D: operands built from datetimes with a time of day
+    T["dt_l"] = tri([(m0, P1, E1, {"paid": 1}), (m0, P2, E1, {"paid": 2})], dt=lambda d: datetime.datetime(d.year, d.month, d.day, 13, 5))
+    T["dt_r"] = tri([(m0, P1, E1, {"rep": 3}), (m0, P2, E2, {"rep": 4})], dt=lambda d: pd.Timestamp(d.year, d.month, d.day, 23, 59))
+    # F: one cell / empty
+    T["one"] = tri([(m0, P1, E1, {"paid": 1})])
+    T["none"] = jc.mk_triangle([])
+    ok = {}
+    for name, t in T.items():
+        try:
+            cs.add_def(f"h_{name}", ct.ccells(t.cells), len(t))
+            ok[name] = True
+        except ct.NotRepresentable:
+            ok[name] = False
+    cs.hold = True
+    J = {k: jc.tri_to_json(t) for k, t in T.items()}
+    pairs = [("vals", "falsy"), ("falsy", "vals"), ("c_none", "c_empty"), ("c_empty", "lim0"), ("lim0", "lim0f"),
+             ("ld_x", "ld_y"), ("ld_y", "ld_x"), ("restated_l", "restated_r"), ("restated_r", "restated_l"),
+             ("nested_l", "nested_r"), ("nested_l", "nested_r1"), ("nested_r", "nested_l"), ("np_l", "np_r"),
+             ("np_r", "np_l"), ("np_py", "np_l"), ("np_l", "np_py"), ("dt_l", "dt_r"), ("dt_r", "dt_l"),
+             ("one", "vals"), ("vals", "one"), ("one", "none"), ("none", "one")]
+    for x, y in pairs:
+        coq = ok[x] and ok[y]
+        a, b_ = f"h_{x}", f"h_{y}"
+        ons = [None, ["cov"], ["country", "cov", "peril"]] if x.startswith("ld_") else \
+              [None, ["per_occurrence_limit"], ["country"]] if x.startswith(("c_", "lim")) else [None, ["lob"]]
+        for jt in JOIN_TYPES:
+            for on in ons:
+                run.join_merge(T[x], T[y], a, b_, jt, on, {"t1": J[x], "t2": J[y], "jt": jt, "on": on}, coq=coq)
+        for sfx in (None, "", "_r"):
+            run.pm(T[x], T[y], a, b_, sfx, {"t1": J[x], "t2": J[y], "suffix": sfx}, coq=coq)
+        fs = sorted({k for c in T[y].cells for k in c.values})
+        for fields in ([], fs[:1], fs, ["only_r", "x", "nope"]):
+            run.statics(T[x], T[y], a, b_, fields, {"t1": J[x], "t2": J[y], "fields": fields}, coq=coq)
+        run.coalesce([T[x], T[y]], [a, b_], {"ts": [J[x], J[y]]}, coq=coq)
+        run.coalesce([T[y], T[x], T[y]], [b_, a, b_], {"ts": [J[y], J[x], J[y]]}, coq=coq)
+        # H: the same call twice, and again after the caller emptied the first result; K: spellings
+        t1, t2 = T[x], T[y]
+        before = (jc.canon_seq(t1.cells), jc.canon_seq(t2.cells))
+        calls = {
+            "join": [lambda: bm.utils.join(t1, t2, "left", None), lambda: bm.utils.join(tri1=t1, tri2=t2, join_type="left", on=None),
+                     lambda: bm.utils.join(t1, t2, "left")],
+            "merge": [lambda: t1.merge(t2, "inner", ["lob"]), lambda: t1.merge(tri2=t2, join_type="inner", on=["lob"]),
+                      lambda: bm.utils.merge(t1, t2, join_type="inner", on=["lob"])],
+            "merge-default": [lambda: t1.merge(t2), lambda: t1.merge(t2, "full"), lambda: bm.utils.merge(t1, t2, "full", None)],
+            "coalesce": [lambda: t1.coalesce([t2]), lambda: bm.utils.coalesce([t1, t2]), lambda: bm.utils.coalesce(triangles=[t1, t2])],
+            "add_statics": [lambda: t1.add_statics(t2, fs), lambda: t1.add_statics(source=t2, statics=fs),
+                            lambda: bm.utils.add_statics(t1, t2, statics=fs)],
+            "period_merge": [lambda: t1.period_merge(t2, "_r"), lambda: t1.period_merge(tri2=t2, suffix="_r"),
+                             lambda: bm.utils.period_merge(t1, t2, suffix="_r")],
+        }
+        for name, fns in calls.items():
+            ctx.hist("state+spelling:" + name)
+            r1 = call(fns[0])
+            c1 = canon_result(r1)
+            if hasattr(r1, "_cells"):
+                r1._cells.clear()
+            elif isinstance(r1, list):
+                r1.clear()
+            probs = []
+            for i, f in enumerate(fns):
+                if canon_result(call(f)) != c1:
+                    probs.append(f"{name}: spelling {i} / a repeated call (after the caller emptied the first result) "
+                                 "gives another result")
+            if (jc.canon_seq(t1.cells), jc.canon_seq(t2.cells)) != before:
+                probs.append(f"{name}: an operand changed")
+            run.record({"t1": J[x], "t2": J[y], "op": "state", "which": name}, probs, True)
+    cs.hold = False
+    # L: coalesce refuses what is not a list; a list of one triangle is fine
+    r = call(lambda: bm.utils.coalesce((T["vals"], T["falsy"])))
+    run.record({"op": "refusal", "which": "coalesce(tuple)"},
+               [] if isinstance(r, ValueError) else ["coalesce of a tuple did not raise ValueError"], True)
+    r = call(lambda: bm.utils.coalesce([T["vals"]]))
+    run.record({"op": "refusal", "which": "coalesce([t])"},
+               [] if (not isinstance(r, BaseException)) and jc.canon_seq(r.cells) == jc.canon_seq(T["vals"].cells)
+               else ["coalesce([t]) is not t"], True)
+
+
 def directed(ctx, run: Runner):
     """error branches and the repaired defect F13 (empty left operand)"""
     bm = jc.bermuda()
@@ -713,6 +850,7 @@ def correspond(ctx):
     cases.codes = True
     run = Runner(ctx, cases)
     directed(ctx, run)
+    hardening(ctx, run)
     exhaustive(ctx, run, "cum", full_coq=not ctx.quick)
     exhaustive(ctx, run, "inc", full_coq=not ctx.quick)
     random_pairs(ctx, run, 60 if ctx.quick else 400)
@@ -780,7 +918,10 @@ def run(ctx):
         "the full product, the quick tier every pair x every join type with on=None plus one rotating `on` variant per "
         "pair, the 16^3 triples of the first four cells plus a sample; directed error "
         "branches (cell-type clash, unknown join type, empty operands) and operands whose metadata differ only in "
-        "where a key lives (details vs loss_details, attribute vs detail key of that name); random larger pairs from harness/gen.py with "
+        "where a key lives (details vs loss_details, attribute vs detail key of that name); a hardening stream (falsy "
+        "values, None vs '' vs 0 metadata, `on` with loss_detail keys, restated cells, nested periods, NumPy corner "
+        "types, operands built from datetimes, one cell / empty, repeated calls, positional / keyword / function "
+        "spellings, coalesce refusal); random larger pairs from harness/gen.py with "
         "overlapping/disjoint coordinates, differing field sets, equal-but-differently-written metadata.  Non-trivial: "
         "operands with >= 2 cells in total or an error branch.")
     ctx.assumptions += [
@@ -823,6 +964,24 @@ def replay(ctx, data):
     elif op == "period_merge":
         res = call(lambda: t1.period_merge(t2, suffix=data.get("suffix")))
         probs = oracle_pm(t1, t2, data.get("suffix"), res)
+    elif op == "state":
+        class _R:       # re-run the whole small stream and report what fails
+            pass
+        probs = [f"re-run `./check C10` (state/spelling stream, call {data.get('which')}); operands are in this file"]
+        res = None
+        fs = sorted({k for c in t2.cells for k in c.values})
+        fns = {"join": lambda: bm.utils.join(t1, t2, "left"), "merge": lambda: t1.merge(t2, "inner", ["lob"]),
+               "merge-default": lambda: t1.merge(t2), "coalesce": lambda: t1.coalesce([t2]),
+               "add_statics": lambda: t1.add_statics(t2, fs), "period_merge": lambda: t1.period_merge(t2, "_r")}
+        f = fns[data["which"]]
+        r1 = call(f)
+        c1 = canon_result(r1)
+        if hasattr(r1, "_cells"):
+            r1._cells.clear()
+        elif isinstance(r1, list):
+            r1.clear()
+        res = call(f)
+        probs = [] if canon_result(res) == c1 else [f"{data['which']}: a repeated call gives another result"]
     else:
         print("replay data:", {k: v for k, v in data.items() if k not in ("t1", "t2", "ts")})
         return 1
